@@ -6,7 +6,8 @@ and elements that carry a sectioning level; given a split level,
 * a *unit* is an element whose level is at or above the split level (numerically `≤`),
 * every unit is written to its own file; the file of a unit contains, in document order, the body text of
   the unit's *region* (its subtree without the subtrees of deeper units), footnote text excluded, followed
-  by the footnote text of the region (footnotes in document order),
+  by the footnote text of the region (one piece per footnote, in document order of the footnotes' ends: a
+  footnote nested in another one comes before its host),
 * so a piece of text belongs to the file of its nearest enclosing unit (`owners`),
 * the unit names are the generator's answers to the units' requests, in document (pre-)order.
 
@@ -39,10 +40,12 @@ def bodyL (split : Int) : List Tree → List Nat
 end
 
 mutual
-/-- footnote text a subtree contributes to the enclosing unit's region: footnotes in document order -/
+/-- footnote text a subtree contributes to the enclosing unit's region: one piece per footnote, a footnote
+    written inside another footnote being a footnote of its own that is listed before its host (it is complete
+    first); the text of a footnote is its body text (it stops at deeper units and at nested footnotes) -/
 def foot (split : Int) : Tree → List Nat
   | .text _ => []
-  | .elem a ks => if isUnit split a then [] else if a.foot then textsL ks else footL split ks
+  | .elem a ks => if isUnit split a then [] else if a.foot then footL split ks ++ bodyL split ks else footL split ks
 def footL (split : Int) : List Tree → List Nat
   | [] => []
   | t :: ts => foot split t ++ footL split ts
@@ -78,18 +81,33 @@ def ownersL (split : Int) (cur : Nat) : List Tree → List (Nat × Nat)
 end
 
 mutual
-/-- well-formed for the property: a footnote is not itself a unit and contains neither units nor footnotes -/
-def wf (split : Int) (inFoot : Bool) : Tree → Bool
+/-- well-formed for the property: a footnote is not itself a sectioning unit (footnotes may be nested and may
+    even contain units) -/
+def wf (split : Int) : Tree → Bool
   | .text _ => true
-  | .elem a ks =>
-    (if inFoot then !isUnit split a && !a.foot else !(isUnit split a && a.foot)) && wfL split (inFoot || a.foot) ks
-def wfL (split : Int) (inFoot : Bool) : List Tree → Bool
+  | .elem a ks => !(isUnit split a && a.foot) && wfL split ks
+def wfL (split : Int) : List Tree → Bool
   | [] => true
-  | t :: ts => wf split inFoot t && wfL split inFoot ts
+  | t :: ts => wf split t && wfL split ts
 end
 
+mutual
+/-- no unit inside a footnote (`inFoot` = the subtree lies inside a footnote) -/
+def footFree (split : Int) (inFoot : Bool) : Tree → Bool
+  | .text _ => true
+  | .elem a ks => !(inFoot && isUnit split a) && footFreeL split (inFoot || a.foot) ks
+def footFreeL (split : Int) (inFoot : Bool) : List Tree → Bool
+  | [] => true
+  | t :: ts => footFree split inFoot t && footFreeL split inFoot ts
+end
+
+/-- a `document` element: the only children of the document node that are rendered -/
+def isDocRoot : Tree → Bool
+  | .text _ => false
+  | .elem a _ => a.level == DOCUMENT_LEVEL
+
 /-- the generator's answers to a sequence of requests -/
-def run {σ} (g : Gen σ) : σ → List Req → Except Err (List String × σ)
+def run {σ ν} (g : Gen σ ν) : σ → List Req → Except Err (List ν × σ)
   | s, [] => .ok ([], s)
   | s, r :: rs =>
     match g.next s r with
@@ -106,16 +124,25 @@ def textsOf : List Tok → List Nat
   | _ :: r => textsOf r
 
 /-- what is observed of a written file: its name, the layout tag it opens with, its text in order -/
-def summary (f : File) : String × Option Tok × List Nat := (f.1, f.2.head?, textsOf f.2)
+def summary {ν} (f : File ν) : ν × Option Tok × List Nat := (f.1, f.2.head?, textsOf f.2)
 
 /-- what the property prescribes for the file of a unit with a given name -/
-def expected (n : String) (u : Unit) : String × Option Tok × List Nat :=
+def expected {ν} (n : ν) (u : Unit) : ν × Option Tok × List Nat :=
   (n, some (.lop u.attrs.tag), u.body ++ u.foot)
 
-/-- the C15 guarantee the renderer relies on: whatever is requested, the names issued from state `s0` are
-    pairwise distinct and contain no forbidden character -/
-def GoodGen {σ} (g : Gen σ) (s0 : σ) (bad : List Char) : Prop :=
-  ∀ reqs names s, run g s0 reqs = .ok (names, s) →
-    names.Nodup ∧ ∀ n ∈ names, ∀ c ∈ n.toList, c ∉ bad
+/-- first half of the C15 guarantee the renderer relies on: whatever is requested, the names issued from
+    state `s0` are pairwise distinct -/
+def DistinctGen {σ ν} (g : Gen σ ν) (s0 : σ) : Prop :=
+  ∀ reqs names s, run g s0 reqs = .ok (names, s) → names.Nodup
+
+/-- second half: every issued name is clean (e.g. contains no forbidden character) -/
+def CleanGen {σ ν} (g : Gen σ ν) (s0 : σ) (clean : ν → Prop) : Prop :=
+  ∀ reqs names s, run g s0 reqs = .ok (names, s) → ∀ n ∈ names, clean n
+
+/-- the C15 guarantee: distinct and clean -/
+def GoodGen {σ ν} (g : Gen σ ν) (s0 : σ) (clean : ν → Prop) : Prop := DistinctGen g s0 ∧ CleanGen g s0 clean
+
+/-- "contains none of the forbidden characters", for names that are strings -/
+def noBadChars (bad : List Char) (n : String) : Prop := ∀ c ∈ n.toList, c ∉ bad
 
 end PlasVerif.Spec.Split
